@@ -162,8 +162,8 @@ class Interp:
                     mod.vars[r["name"]] = Func(r, mod)
             elif op == "class_decl":
                 self.exec_class_decl(r, mod)
-            elif op in ("variable_decl", "import_stmt", "from_import_stmt"):
-                if op != "variable_decl":
+            elif op in ("variable_decl", "import_stmt", "from_import_stmt", "package_stmt"):
+                if op not in ("variable_decl", "package_stmt"):
                     self.exec_stmt(r, mod)
             else:
                 raise OutOfVocabulary(f"top-level {op}")
@@ -291,6 +291,14 @@ class Interp:
         return None
 
     def op_pass_stmt(self, r, act):
+        return None
+
+    def op_package_stmt(self, r, act):
+        return None
+
+    def op_expression_stmt(self, r, act):
+        # emitted by the TypeScript frontend after an expression used as a statement; it names an already computed value and
+        # is not consumed by any analysis handler: tolerated as a no-op (listed in evidence)
         return None
 
     def op_global_stmt(self, r, act):
